@@ -331,4 +331,32 @@ def _helpers(ctx):
                    f"`{unparse(bad[0][0])}` copies entry ({', '.join(bad[0][2])}) to position ({', '.join(bad[0][1])}) without conjugation: a Hermitian variable is "
                    "unpacked with the wrong imaginary parts below the diagonal", bad[0][0])
         elif comp_ok is None:
-            ctx.ob("R-SHAPE", ex, "entry (i,j) -> rows[i][j]", None, "unpacking not recognised", required=False)
+            # flatten / reshape form: entries listed in order O1 and folded back with order O2 keep their places iff O1 == O2
+            def _order(call, default):
+                for kw in call.keywords:
+                    if kw.arg == "order" and isinstance(kw.value, ast.Constant):
+                        return kw.value.value
+                pos = [a for a in call.args if isinstance(a, ast.Constant) and a.value in ("C", "F")]
+                return pos[0].value if pos else default
+            flat = [c for c in ast.walk(ex.node) if isinstance(c, ast.Call) and isinstance(c.func, ast.Attribute) and c.func.attr in ("flatten", "ravel")
+                    and "cvx_expr" in unparse(c.func.value)]
+            resh = [c for c in ast.walk(ex.node) if isinstance(c, ast.Call) and ((isinstance(c.func, ast.Attribute) and c.func.attr == "reshape") or
+                                                                                 unparse(c.func) in ("np.reshape", "numpy.reshape"))]
+            if len(flat) == 1 and len(resh) == 1:
+                # cvxpy's Expression.flatten has no stable default (it changed from 'F' to a warning); only an explicit order is decided
+                o1 = _order(flat[0], None)
+                recv = resh[0].func.value if isinstance(resh[0].func, ast.Attribute) else (resh[0].args[0] if resh[0].args else None)
+                if isinstance(recv, ast.Name):
+                    dfs = [n.value for n in ast.walk(ex.node) if isinstance(n, ast.Assign) and len(n.targets) == 1 and isinstance(n.targets[0], ast.Name) and n.targets[0].id == recv.id]
+                    recv = dfs[0] if len(dfs) == 1 else recv
+                on_numpy = unparse(resh[0].func).startswith(("np.", "numpy.")) or (recv is not None and unparse(recv).startswith(("np.array(", "np.asarray(", "numpy.array(")))
+                o2 = _order(resh[0], "C" if on_numpy else None)
+                if o1 is None or o2 is None:
+                    ctx.ob("R-SHAPE", ex, "entry (i,j) -> rows[i][j]", None, f"flatten order {o1} / reshape order {o2}: a default order is not decided", resh[0], required=False)
+                else:
+                    ctx.ob("R-SHAPE", ex, "entry (i,j) -> rows[i][j]", o1 == o2,
+                           f"entries listed and folded back in the same order '{o1}'" if o1 == o2 else
+                           f"`{unparse(flat[0])}` lists the entries in order '{o1}' (column by column) but `{unparse(resh[0])[:60]}` folds them back in order '{o2}': "
+                           "entry (i, j) of the variable lands at (j, i) -- every function applied to a Variable sees its transpose", resh[0])
+            else:
+                ctx.ob("R-SHAPE", ex, "entry (i,j) -> rows[i][j]", None, "unpacking not recognised", required=False)
